@@ -13,22 +13,22 @@ CHECKS = {
          "Each generated pair (weighted to renames, swaps, chains, duplicates, patched-and-renamed files, kind swaps) is applied in place through the overlay bowl several times from identical starting states with plain and optimized patches; the directory must be bit-for-bit untouched (inode, mtime, size, checksum) until Commit and equal to the new build afterwards. Map-iteration orders of the commit phase are sampled by repetition and the distinct operation sequences observed are counted. Four kind-swap classes are recorded as known findings.",
          "Trusted: file-system timestamps/inodes on the scratch tmpfs; the fresh-bowl result is cross-checked against the in-memory new build, not assumed.", "§5 C02"),
  "C03": ("fault_enumeration", "crash-point enumeration with a harness-side crash model: every checkpoint index x lag x forward-only damage, resumed in a brand-new patcher+bowl from the gob round-tripped checkpoint; bounded-progress monitor on ShouldSave/Save events",
-         "For each (patch family, bowl, plain/optimized, compression) one always-save run records every checkpoint and the on-disk state there; then every k (sampled only above a cap) is resumed on the state of checkpoint k+lag after forward-only damage, plus runs aborted mid-operation by injected read errors and chains of repeated interruptions; final tree must equal the new build. 'Eventually given checkpoints' is decided as bounded progress on purpose-sized families per (algorithm, quality class).",
+         "For each (patch family, bowl, plain/optimized, compression) one always-save run records every checkpoint and the on-disk state there; then every k (sampled only above a cap) is resumed on the state of checkpoint k+lag after forward-only damage, plus runs aborted mid-operation by injected read errors, chains of repeated interruptions and a consumer that pauses asking for tens of MiB of stream; final tree must equal the new build. 'Eventually given checkpoints' is decided as bounded progress on purpose-sized families per (algorithm, quality class).",
          "Crash = loss of any suffix of post-checkpoint writes at file-content level; no kernel write reordering; crash points end before Commit starts.", "§5 C03"),
  "C04": ("exploration", "reference-model monitor: signature written from the specification (own weak hash + crypto/md5) compared hash-by-hash with both producers; race detector pass on the diff-time producer",
-         "Builds with sizes swept around 16K/32K/64K multiples, empty files, many tiny files, case-twin paths; diff-time signing through a source pool that slices every read randomly and yields, and stand-alone signing; every compression setting of the signature stream; validation of the pristine build in both modes must report nothing, also for a validator context that has just validated a damaged copy; symlink destinations spelled in non-normal forms.",
+         "Builds with sizes swept around 16K/32K/64K multiples, empty files, many tiny files, case-twin paths; diff-time signing through a source pool that slices every read randomly and yields, and stand-alone signing; every compression setting of the signature stream; validation of the pristine build in both modes must report nothing, also for a validator context that has just validated a damaged copy; symlink destinations spelled in non-normal forms; builds that are one regular file (one pool object signs stand-alone and at diff time, the file itself is the validation target).",
          "Trusted: crypto/md5; the independent stream decoder.", "§5 C04"),
  "C05": ("fault_enumeration", "fault enumeration with an independent truth oracle: boundary-directed damage list applied to signed trees, wounds read from the .pww event log by the independent decoder, coverage of every differing offset checked",
-         "Every damage of the list (bit flips at block edges, truncation/extension around every block boundary, long garbled runs beyond the 4 MiB aggregation limit, kind swaps, symlink retargeting, directory replaced by a symlink to another existing directory) alone and in random combinations; truth is the byte-wise comparison of the damaged tree with the reference; fail-fast and wounds-file modes.",
+         "Every damage of the list (bit flips at block edges, truncation/extension around every block boundary, long garbled runs beyond the 4 MiB aggregation limit, kind swaps, symlink retargeting, directory replaced by a symlink to another existing directory) alone and in random combinations; truth is the byte-wise comparison of the damaged tree with the reference; fail-fast and wounds-file modes; weak-hash-preserving edits; symlinks retargeted to another spelling of the signed destination; validator contexts that validated a pristine sibling build (same layout, other content and signature) before.",
          "A non-nil error from non-fail-fast Validate counts as 'not declared valid' (counted).", "§5 C05"),
  "C07": ("exploration", "reference-model monitor + quiescence-based hang detector around the real optimizer over a parameter grid; child-process isolation attributes process-fatal panics",
          "Patches from pairs emphasising tiny new/old files, files smaller than the partition count, rename+edit, equal shares, several optimized files with decreasing old sizes and content moved from the bigger into the smaller file, a single optimized file; pools shared across the optimizer runs of a case (odd cases); partitions 0..16 x ForceMapAll x suffix-sort concurrency x size limits x output compression; the optimized patch is decoded against the grammar and applied fresh and in place; result compared with the new build.",
          "In-place application skipped for kind-swap pairs (known C02 findings).", "§5 C07"),
  "C08": ("exploration", "conservation monitor over the independently decoded patch: per-file DATA/BLOCK_RANGE accounting cross-checked with the differ's counters; edit bound evaluated per file",
-         "Identical builds, renames, duplicates, contents rotated between existing paths, existing path overwritten by a copy of another old file, k localized edits at boundary-directed offsets; fresh+reused must equal the new size, files present in the old build carry no DATA bytes, fresh <= introduced + (2k+2)*64KiB.",
+         "Identical builds, renames, duplicates, contents rotated between existing paths, existing path overwritten by a copy of another old file, k localized edits at boundary-directed offsets; fresh+reused must equal the new size, files present in the old build carry no DATA bytes, fresh <= introduced + (2k+2)*64KiB; a third of the diffs read the new build through a short-reading pool.",
          "High-entropy content only (the statement's domain).", "§5 C08"),
  "C09": ("fault_enumeration", "fault enumeration: boundary-directed damage to the old build after diffing, application through the real safekeeper, oracle 'error or exactly the new build'",
-         "Pairs reusing old data by block ranges, bsdiff series, whole-file copies (aligned / unaligned / duplicated to several paths), each with every damage of the list to every old file, plain and optimized patches, fresh bowl wired through the safekeeper; plus signatures that cannot be loaded (open error / truncated / garbage) with and without damage.",
+         "Pairs reusing old data by block ranges, bsdiff series, whole-file copies (aligned / unaligned / duplicated to several paths), each with every damage of the list to every old file, plain and optimized patches, fresh bowl wired through the safekeeper; two old files whose paths differ only by case; a kept file followed by a new file that starts with its first blocks; odd cases read through a pool that hands a just-used reader back at an arbitrary position; plus signatures that cannot be loaded (open error / truncated / garbage) with and without damage.",
          "Safekeeper wired as both target pool and the fresh bowl's TargetPool.", "§5 C09"),
  "C10": ("fault_enumeration", "fault enumeration over malformed inputs: truncation at every byte + field/structural mutation through an independent re-encoder; oracle = the call returns (recover, child-exit attribution, quiescence detector)",
          "Valid plain/optimized/first-install (empty old build) patches, signatures and overlays re-framed uncompressed, gzip and brotli; every truncation point of the uncompressed streams and every index/span/length/seek/kind field set to boundary and huge values, pairs of fields damaged together (wrapping sums), data ops turned into block ranges, end markers dropped/duplicated/inserted, hash counts wrong (through the stream and as a signature value handed to the hash grouping directly); fed to patcher (fresh+dry bowl), optimizer, signature reader + hash grouping + validating pool, overlay applier.",
@@ -40,7 +40,7 @@ CHECKS = {
          "All (old,new) over small alphabets for partitions up to 16; random shapes up to 6 MiB under GOMAXPROCS 1/2/16 with perturbed and reversed worker completion; one DiffContext reused across related pairs; random Seek/Read programs on lrufile with tiny geometries.",
          "EOF-with-last-bytes treated as equivalent to EOF-on-next-read.", "§5 C12"),
  "C13": ("exploration", "round-trip monitor with reused message structs + checkpoint enumeration: every popped reader checkpoint is gob round-tripped and resumed in a new reader (serialized at pop time or only after the pass), and the source read to its end is resumed again through a new reader; ASan pass on the C brotli encoder",
-         "Message sequences with payload sizes straddling the 32 KiB buffer and every power of two up to 4 MiB+1, all 25 settings, save requests at every boundary of sequences <= 64 messages; purpose-sized sequences for slow-checkpointing settings.",
+         "Message sequences with payload sizes straddling the 32 KiB buffer and every power of two up to 4 MiB+1, all 25 settings, save requests at every boundary of sequences <= 64 messages; last pop after end-of-stream in half of the passes; a reader rewound while it holds a later, un-popped checkpoint; purpose-sized sequences for slow-checkpointing settings.",
          "WantSave/PopCheckpoint driven in the patcher's pattern.", "§5 C13"),
  "C14": ("exploration", "reference-model monitor: overlay produced by the real writer under arbitrary write partitions / flushes / sessions, applied by the real applier and by a reference applier over independently decoded ops; the same through the overlay bowl's entry writer (Save/Resume sessions in brand-new bowls, abandon-and-restart) and Commit",
          "Equal and differing runs around the 8 KiB threshold and the 128 KiB window, shifted content (insertions/deletions) with flushes exactly at the edit points, multi-session production from reported offsets, stale junk in the overlay file; a third of the cases go through the overlay bowl (entry-writer checkpoints gob round-tripped, writes after the checkpoint left behind, new = old minus a leading chunk for restarted files).",
@@ -49,13 +49,13 @@ CHECKS = {
          "Patches mixing every series kind; every subset (or structured + random subsets above 8 files), nil whitelist, stop/resume on the same patcher; touched count, bowl calls, file bytes, old-build read set.",
          "A file resumed after a stop may ask for its writer again.", "§5 C17"),
  "C06": ("fault_enumeration", "fault enumeration x forced and perturbed schedules at build-tag hooks in validator/healer; independent tree oracle after return; quiescence-based hang detector; race detector pass (thorough)",
-         "Every damage class (incl. subtree-hiding kind swaps, emptied/missing directory) is healed from a zip made by wharf under validator-first, healer-first and seeded perturbed schedules with GOMAXPROCS 1/4/16; all signed entries must be exact afterwards and AssertValid nil; a valid directory must stay untouched (inode/mtime/checksum). The evidence counts runs where a hidden child was checked before / after its parent was healed; a run that saw only one order is inconclusive.",
+         "Every damage class (incl. subtree-hiding kind swaps, emptied/missing directory) is healed from a zip made by wharf under validator-first, healer-first and seeded perturbed schedules with GOMAXPROCS 1/4/16; all signed entries must be exact afterwards and AssertValid nil; every third damaged case heals a second time with the same context; a valid directory must stay untouched (inode/mtime/checksum). The evidence counts runs where a hidden child was checked before / after its parent was healed; a run that saw only one order is inconclusive.",
          "Schedule space is sampled, not enumerated; extra unsigned files may remain.", "§5 C06"),
  "C15": ("exploration", "determinism monitor (byte equality of patch/signature/optimizer output across runs under perturbed read slicing, sinks, bsdiff hooks and GOMAXPROCS 1/2/4/16) + Go race detector as a deciding oracle",
-         "Each pair is diffed R times with a different controller seed per run and optimized R times per parameter set; any byte difference is a violation; the same reduced list runs under -race and every de-duplicated report with a frame in the differ/optimizer pipelines is a violation.",
+         "Each pair is diffed R times with a different controller seed per run (the second run on a DiffContext object that diffed a decoy old build before; optimizer runs share pools) and optimized R times per parameter set; any byte difference is a violation; the same reduced list runs under -race and every de-duplicated report with a frame in the differ/optimizer pipelines is a violation.",
          "Race detector sees executed interleavings only; map order sampled by repetition.", "§5 C15"),
  "C16": ("fault_enumeration", "fault/cancellation-instant enumeration at build-tag hooks + quiescence-based deadlock detector over goroutine dumps; independent truth for the fail-fast verdict; forced cancel-inside-healer schedule",
-         "Builds up to 2500 directories / 1300 files with 1023/1024/1025 wounds; consumers fail-fast, wounds file (good / missing dir / /dev/full), printer, healer (good / missing / corrupted archive); cancellation before the call, at directory checks, at the main select and file start of every file, after queueing, before closing the wound channel, inside the healer between its context check and queueing, and from OnProgress callbacks. Validate must return; fail-fast nil implies the tree really matches; after a cancelled fail-fast run the same context validates once more and must return the true verdict.",
+         "Builds up to 2500 directories / 1300 files with 1023/1024/1025 wounds; consumers fail-fast, wounds file (good / missing dir / /dev/full), printer, healer (good / missing / corrupted archive); a file worker that fails (signature one hash short); cancellation before the call, at directory checks, at the main select and file start of every file, after queueing, before closing the wound channel, inside the healer between its context check and queueing, and from OnProgress callbacks. Validate must return; fail-fast nil implies the tree really matches; after a cancelled fail-fast run the same context validates once more and must return the true verdict.",
          "Leftover goroutines are reported, not judged.", "§5 C16"),
  "C18": ("exploration", "reference-model monitor: block-wise truth computed by the harness; inner pool records every byte; wound/marker log checked for order, tiling and exactness",
          "Signed sizes around block multiples, written data differing in every subset of blocks / deleted / duplicated / swapped / extended / prefixes, all write slicings, error mode (stop-and-close and keep-writing drivers) and wound mode (raw and aggregated); also written the patcher's way through a pool bowl (entry writer and Transpose out of plain and short-reading target pools).",
